@@ -124,7 +124,14 @@ NextRequest ==
 (* ------------------------- handler selection --------------------------- *)
 Reverse(s) == [j \in 1..Len(s) |-> s[Len(s) + 1 - j]]
 HasReg(cls) == \E k \in 1..Len(reg) : reg[k].cls = cls
-Walk(c) == IF WrongDesign = "mro_reversed" THEN Reverse(Mro[c]) ELSE Mro[c]
+(* A class may have several bases: Mro[c] is the whole linearisation, mixins and other secondary bases included.
+   PrimaryChain(c) follows the first base only (c, its first base, that one's first base, ...); the wrong design
+   "primary_chain_only" looks for handlers along that chain and so misses a handler registered for a secondary base. *)
+RECURSIVE PrimaryChain(_)
+PrimaryChain(c) == IF Len(Mro[c]) = 1 THEN <<c>> ELSE <<c>> \o PrimaryChain(Mro[c][2])
+OffPrimaryChain(c) == {Mro[c][j] : j \in 1..Len(Mro[c])} \ {PrimaryChain(c)[j] : j \in 1..Len(PrimaryChain(c))}
+Walk(c) == IF WrongDesign = "mro_reversed" THEN Reverse(Mro[c])
+           ELSE IF WrongDesign = "primary_chain_only" THEN PrimaryChain(c) ELSE Mro[c]
 Nearest(c) == LET m == Walk(c)
                   j == CHOOSE j \in 1..Len(m) : HasReg(m[j]) /\ \A j2 \in 1..(j - 1) : ~HasReg(m[j2])
               IN  m[j]
@@ -411,6 +418,10 @@ MostSpecificWins == \A k \in Ix : K(k).site = "handler" =>
                  LET m == Mro[K(k).cls]  hc == reg[K(k).c].cls
                  IN  /\ InSeq(m, hc)
                      /\ \A j \in 1..(Pos(m, hc) - 1) : ~HasReg(m[j])
+(* a handler registered for a secondary base (off the primary chain) is chosen when nothing nearer is registered *)
+SecondaryBaseHonoured == \A k \in Ix : K(k).site = "handler" =>
+                 \A b \in OffPrimaryChain(K(k).cls) :
+                    (HasReg(b) /\ \A j \in 1..(Pos(Mro[K(k).cls], b) - 1) : ~HasReg(Mro[K(k).cls][j])) => reg[K(k).c].cls = b
 LatestRegistrationWins == \A k \in Ix : K(k).site = "handler" =>
                  \A k2 \in (K(k).c + 1)..Len(reg) : reg[k2].cls # reg[K(k).c].cls
 (* the handler is given the exception that was raised, right after the raise *)
